@@ -279,7 +279,7 @@ func NewPublicKeyFromBytes(bts []byte) (*PublicKey, error) {
 	if err != nil {
 		return nil, err
 	}
-	if pubk.N == nil || pubk.Z == nil || pubk.S == nil || len(pubk.R) == 0 {
+	if pubk.N == nil || pubk.Z == nil || pubk.S == nil || pubk.R == nil {
 		return nil, errors.New("public key lacks one of n, Z, S or the bases")
 	}
 	keylength := pubk.N.BitLen()
